@@ -89,6 +89,16 @@ pub fn generated_groups(quick: bool) -> Vec<(String, Vec<String>)> {
                 v.push(print_default(&prog).text);
             }
         }
+        for dir in 0..SCOPE_DIRS.len() {
+            for jump in 0..SCOPE_JUMPS.len() {
+                v.push(print_default(&cross_scope_program(dir, jump).0).text);
+            }
+        }
+        for kind in 0..INTO_KINDS.len() {
+            for (in_sub, twice) in [(false, false), (true, false), (false, true), (true, true)] {
+                v.push(print_default(&jump_into_program(kind, in_sub, twice)).text);
+            }
+        }
         let depth = if quick { 3 } else { 5 };
         for idx in 0..handler_history_count(depth) {
             let ev = handler_history_at(idx, depth);
@@ -96,7 +106,7 @@ pub fn generated_groups(quick: bool) -> Vec<(String, Vec<String>)> {
                 v.push(print_default(&handler_history_program(&ev)).text);
             }
         }
-        groups.push((format!("generated jump layouts, loop escapes, fault x container x handler programs, handler histories of depth <= {}", depth), v));
+        groups.push((format!("generated jump layouts, loop escapes, jumps into blocks and across scopes, fault x container x handler programs, handler histories of depth <= {}", depth), v));
     }
     groups
 }
